@@ -140,6 +140,33 @@ def mutation_case(col, rng):
             col.add(None)
 
 
+def foreign_variable_case(col):
+    """a model-free variable must not be able to take over a node frozen in a model (bare Value node: no variable owns it)"""
+    z = lsl.Value(np.float32(2.5), _name="z")
+    top = lsl.Calc(lambda a: a * 2.0, z, _name="top")
+    model = lsl.GraphBuilder().add(top).build_model()
+    zz = model.nodes["z"]
+    bad = None
+    for what, act in (("free_var.value_node = node", lambda: setattr(lsl.Var(np.float32(1.0), name="thief"), "value_node", zz)), ("Var(node)", lambda: lsl.Var(zz, name="thief2")),
+                      ("obs(node)", lambda: lsl.obs(zz, name="thief3"))):
+        try:
+            act()
+            bad = f"{what}: a node that belongs to a model was accepted as the value node of a model-free variable"
+            break
+        except RuntimeError:
+            pass
+        if zz.var is not None or zz.model is not model:
+            bad = f"{what}: rejected, but the frozen node was modified (node.var = {zz.var!r})"
+            break
+    if bad is None:
+        n_before = (len(model.nodes), len(model.vars))
+        nodes, vars_ = model.pop_nodes_and_vars()
+        m2 = lsl.GraphBuilder().add(*nodes.values(), *vars_.values()).build_model()
+        if (len(m2.nodes), len(m2.vars)) != n_before:
+            bad = f"pop + rebuild after the rejected attempts gives {len(m2.nodes)} nodes / {len(m2.vars)} variables instead of {n_before}"
+    col.add({"sig": "native::frozen::foreign_variable", "what": bad, "input": {"node": "bare Value node inside a model"}} if bad else None)
+
+
 def groups_case(col, rng):
     """the groups a model reports hold the model's OWN members (also for copy=True and deep copies)"""
     for how in ("copy_false", "copy_true", "deepcopy"):
@@ -235,8 +262,12 @@ def bounded(tier, seed):
                 case(col, rng, how, seeded)
                 n += 1
     mutation_case(col, rng)
+    try:
+        foreign_variable_case(col)
+    except Exception as e:
+        col.add({"sig": f"native::frozen::exception::{type(e).__name__}", "what": str(e)[:200], "input": {"scenario": "foreign variable"}})
     return {"evaluations": col.evals, "distinct_nontrivial": n + 2,
             "rule": ("BOUNDED: model with a parameter, an unnamed shared Calc, a weak variable, a transient node, an observed vector variable, a group, optionally a seeded node; a stand-alone distribution with a hand-set evaluation point: "
                      "pop + rebuild, copy_nodes_and_vars + rebuild, deepcopy, copy=True, save/load (dill) - structure invariants (unique names, outputs = inverse of inputs, topological "
-                     f"order), equal state, independence, equal behaviour under assignment; 13 mutation attempts on frozen nodes/variables; duplicate names. seed={seed}"),
+                     f"order), equal state, independence, equal behaviour under assignment; 13 mutation attempts on frozen nodes/variables; take-over attempts through a model-free variable (setter, Var(), obs()); duplicate names. seed={seed}"),
             "samples": [{"round_trip": "save_load", "seeded_node": True}], "exhaustive": False, "violations": col.violations}
